@@ -299,6 +299,23 @@ def inline_new_temps(tree, modname):
                     if not (isinstance(st, ast.Assign) and len(st.targets) == 1 and isinstance(st.targets[0], ast.Name)):
                         continue
                     v = st.targets[0].id
+                    if v not in r and v not in params and v not in nested_use and len(stores.get(v, [])) == 1 and _constant_expr(st.value) \
+                            and all(getattr(u, "lineno", 0) >= st.lineno for u in loads.get(v, [])) and loads.get(v):
+                        # a named constant (2 * np.pi, a literal): every use reads the same value
+                        import copy as _copy
+                        for u in loads[v]:
+                            for holder in ast.walk(fn):
+                                for fld, val_ in ast.iter_fields(holder):
+                                    if val_ is u:
+                                        setattr(holder, fld, _copy.deepcopy(st.value))
+                                    elif isinstance(val_, list):
+                                        for j_, item in enumerate(val_):
+                                            if item is u:
+                                                val_[j_] = _copy.deepcopy(st.value)
+                        del blk[i]
+                        applied.setdefault(q, []).append(v)
+                        done = True
+                        break
                     if v in r or v in params or v in nested_use or len(stores.get(v, [])) != 1 or len(loads.get(v, [])) != 1:
                         continue
                     if not isinstance(nxt, _SIMPLE):
@@ -460,6 +477,19 @@ def restore_operand_order(tree, modname):
                 break
             applied[q] = applied.get(q, 0) + t.n
     return applied
+
+
+def _constant_expr(e):
+    """literals, module attributes such as np.pi, and arithmetic over them"""
+    if isinstance(e, ast.Constant):
+        return isinstance(e.value, (int, float, complex)) and not isinstance(e.value, bool)
+    if isinstance(e, ast.Attribute):
+        return isinstance(e.value, ast.Name) and e.value.id in ("np", "numpy", "math") and e.attr in ("pi", "e", "inf")
+    if isinstance(e, ast.BinOp) and isinstance(e.op, (ast.Add, ast.Sub, ast.Mult, ast.Div, ast.Pow)):
+        return _constant_expr(e.left) and _constant_expr(e.right)
+    if isinstance(e, ast.UnaryOp) and isinstance(e.op, (ast.USub, ast.UAdd)):
+        return _constant_expr(e.operand)
+    return False
 
 
 def _blocks(fn):
